@@ -35,43 +35,40 @@ example : recognize "G#:min(*b3,*5)/5".toList =
 example : recognize "C:maj(3,)".toList = none := by decide
 example : recognize "C:(*3)".toList ≠ none := by decide
 
-/-! ## 2. Validation: total, and equal to the grammar except for ONE trailing newline (finding) -/
+/-! ## 2. Validation: total, and equal to the documented grammar
+   (full strength since the repair `fix: chord label validation no longer accepts a trailing newline`:
+    CHORD_RE is anchored with `\Z`; the former `_partial` / `_full_statement_false` pair is gone) -/
 
 /-- `validate_chord_label` returns or raises InvalidChordException, nothing else -/
 theorem validate_total (s : Str) : pyValidate s = .ok () ∨ pyValidate s = .error .invalidChord :=
   pyValidate_total s
 
-/-- exactly which strings are accepted: derivable labels, and derivable labels followed by one "\n" -/
-theorem validate_accepts_iff (s : Str) :
-    pyValidate s = .ok () ↔ (∃ l : Label, l.render = s) ∨ (∃ l : Label, l.render ++ ['\n'] = s) := by
+/-- acceptance by `validate_chord_label` coincides with the documented syntax, for EVERY string -/
+theorem validate_iff_grammar (s : Str) : pyValidate s = .ok () ↔ ∃ l : Label, l.render = s := by
   rw [pyValidate_ok_iff, reMatch_iff]
 
-/-- FULL-STRENGTH STATEMENT (false of the unchanged code): acceptance coincides with the documented syntax. -/
-def validate_iff_grammar_full_statement : Prop :=
-  ∀ s : Str, pyValidate s = .ok () ↔ ∃ l : Label, l.render = s
+/-- in particular a label followed by a newline is rejected (regression guard for the repaired defect) -/
+theorem validate_rejects_trailing_newline (l : Label) : pyValidate (l.render ++ ['\n']) = .error .invalidChord := by
+  rcases pyValidate_total (l.render ++ ['\n']) with h | h
+  · obtain ⟨l', hl'⟩ := (validate_iff_grammar _).1 h
+    -- a rendered label contains no newline
+    have hmem : '\n' ∈ l'.render := by rw [hl']; simp
+    have hno : '\n' ∉ l'.render := by
+      match l' with
+      | .N => decide
+      | .X => decide
+      | .chord L a body bass =>
+        rw [render_chord_eq]
+        have h1 := not_mem_of_alpha (rootStr_chars L a) (x := '\n') (by decide)
+        have h2 := not_mem_of_alpha (bodyHead_chars body) (x := '\n') (by decide)
+        have h3 := not_mem_of_alpha (bodyParen_chars body) (x := '\n') (by decide)
+        have h4 := not_mem_of_alpha (renderBass_chars bass) (x := '\n') (by decide)
+        simp [h1, h2, h3, h4]
+    exact absurd hmem hno
+  · exact h
 
-/-- its negation, witnessed by "C\n" (Python's `$` matches before a final newline) -/
-theorem validate_iff_grammar_full_statement_false : ¬ validate_iff_grammar_full_statement := by
-  intro h
-  have hacc : pyValidate ['C', '\n'] = .ok () := by decide
-  obtain ⟨l, hl⟩ := (h _).1 hacc
-  have h1 := Chord.recognize_render l
-  have h2 : recognize ['C', '\n'] = none := by decide
-  rw [hl, h2] at h1
-  exact absurd h1 (by simp)
-
-/-- the strongest true version: on strings that do not end in a newline, acceptance IS derivability -/
-theorem validate_iff_grammar_partial (s : Str) (hnl : s.getLast? ≠ some '\n') :
-    pyValidate s = .ok () ↔ ∃ l : Label, l.render = s := by
-  rw [validate_accepts_iff]
-  constructor
-  · rintro (h | ⟨l, rfl⟩)
-    · exact h
-    · exact absurd List.getLast?_concat hnl
-  · exact Or.inl
-
-example : pyValidate "C\n".toList = .ok () := by decide
-example : "Db:maj7/3".toList.getLast? ≠ some '\n' ∧ pyValidate "Db:maj7/3".toList = .ok () := by decide
+example : pyValidate "C\n".toList = .error .invalidChord := by decide
+example : pyValidate "Db:maj7/3".toList = .ok () := by decide
 
 /-! ## 3. Splitting: total on every string; on a rendered label it returns the grammar's components -/
 
